@@ -100,8 +100,10 @@ def block(rng, depth, maxdepth, progress=True):
     return out
 
 
-def rand_program(rng, progress=True):
-    maxdepth = rng.choice([0, 1, 2, 2, 3, 4, 5])
+def rand_program(rng, progress=True, maxdepth_cap=5):
+    """maxdepth_cap=4 keeps the nesting within the four levels the format supports (C02's domain); with 5 a fifth,
+    refused level occurs (memory safety of the loop stack: C03)"""
+    maxdepth = rng.choice([0, 1, 2, 2, 3, 4, 5 if maxdepth_cap >= 5 else 4])
     p = block(rng, 0, maxdepth, progress)
     r = rng.random()
     if r < 0.12:
@@ -168,3 +170,26 @@ def probe_times(rng, n, cyclic=False):
     ts = [max(t, 0) for t in ts]
     rng.shuffle(ts)
     return ts[:n]
+
+
+def special_programs(rng, thorough=False, deep=True):
+    """(label, program): loops nested far beyond the four supported levels (the refused levels' LOOP_ENDs then act on
+    the enclosing loops), and programs longer than 255 / 65535 bytes whose live part lies beyond those offsets"""
+    out = []
+    for n in (([5, 6, 7, 100, 255, 256, 257, 258, 259, 260, 300, 1000] if thorough else [5, 6, 255, 256, 257, 258, 259, 300]) if deep else []):
+        body = simple_cmd(rng, timed=True)
+        out.append(("deep-nesting", [0x0c, 2] * n + body + [0x0d] * n + [0x04, 9, 9, 9, 50, 0]))
+        out.append(("deep-nesting", [0x04, 1, 2, 3, 1] + [0x0c, rng.choice([1, 2, 3])] * n + body + [0x0d] * (n // 2) + [0x08, 200, 100, 50, 10]
+                    + [0x0d] * (n - n // 2) + [0x06, 5]))
+    for size in ([250, 65530, 65700, 131080] if thorough else [250, 65530, 65700]):
+        live = block(rng, 0, 2) + [0x04, 7, 7, 7, 50] + block(rng, 0, 1)
+        # jump over a pad of NOPs into the live part, which ends with a jump back to its own start (a cycle that consumes time)
+        head = [0x12] + varint(size)
+        prog = head + [0x01] * (size - len(head))
+        start = len(prog)
+        prog += simple_cmd(rng, timed=True) + live
+        if rng.random() < 0.5:
+            # (a long sleep per round keeps the number of rounds small up to the largest probed instant)
+            prog += [0x02] + varint(16383) + [0x12] + varint(start)
+        out.append(("long-program", prog))
+    return out
